@@ -533,6 +533,334 @@ def validate_numpy(params):
 
 
 # --------------------------------------------------------------------------
+# lit/ and def/ : CrossHair on the real term() / IfNode.evaluate_for_platform
+
+P = {}
+STATS = Counter()
+LAST = {}
+
+_DIGITS = {2: "01", 8: "01234567", 10: "0123456789", 16: "0123456789abcdefABCDEF"}
+SUFFIXES = ["", "u", "U", "l", "L", "ll", "LL", "ul", "uL", "Ul", "UL", "lu", "lU", "Lu", "LU",
+            "ull", "uLL", "Ull", "ULL", "llu", "llU", "LLu", "LLU"]
+
+
+def _base_of(prefix):
+    return {"": 10, "0": 8, "0x": 16, "0X": 16, "0b": 2, "0B": 2}[prefix]
+
+
+def _digit_val(c):
+    o = ord(c)
+    if 48 <= o <= 57:
+        return o - 48
+    if 97 <= o <= 102:
+        return o - 87
+    return o - 55
+
+
+def _lit_pre(tail):
+    base = _base_of(P["prefix"])
+    if not (P["minlen"] <= len(tail) <= P["maxlen"]):
+        return False
+    for c in tail:
+        o = ord(c)
+        if base == 16:
+            if not (48 <= o <= 57 or 97 <= o <= 102 or 65 <= o <= 70):
+                return False
+        elif not (48 <= o < 48 + base):
+            return False
+    if P["prefix"] == "" and P["stem"] == "" and tail[0] == "0":
+        return False  # that would be an octal constant: covered by prefix "0"
+    return True
+
+
+def _lit_region(fid, unsigned, value):
+    if fid == "C02-big-unsuffixed-literal":
+        return (not unsigned) and value >= (1 << 63)
+    return False
+
+
+def h_lit(tail: str) -> bool:
+    """
+    pre: _lit_pre(tail)
+    post: _
+    """
+    import codebasin.preprocessor as pp
+
+    base = _base_of(P["prefix"])
+    digits = P["stem"] + tail
+    v = 0
+    for c in digits:
+        v = v * base + _digit_val(c)
+    u_suffix = "u" in P["suffix"].lower()
+    # ISO C 6.4.4.1: first type in which the value fits; gcc diagnoses decimal/unsuffixed values >= 2^63
+    # ("so large that it is unsigned") and anything >= 2^64: outside the property
+    if v >= (1 << 64):
+        return True
+    if base == 10 and not u_suffix and v >= (1 << 63):
+        return True
+    unsigned = u_suffix or v >= (1 << 63)
+    for fid in P.get("regions", []):
+        if _lit_region(fid, u_suffix, v):
+            return True
+    w = P.get("witness")
+    if w and not _lit_region(w, u_suffix, v):
+        return True
+    STATS["compared"] += 1
+    if P.get("_twin"):
+        return False
+    text = P["prefix"] + digits + P["suffix"]
+    tok = pp.NumericalConstant("h", 0, False, text)
+    old = pp.np
+    pp.np = npshim
+    npshim.use(npshim.PyInt)
+    try:
+        r = pp.ExpressionEvaluator([tok]).term()
+        ok = isinstance(r, npshim._Int) and (r.kind == "u64") == unsigned and (r.v % (1 << 64)) == v
+        if P.get("_replay"):
+            LAST.update(text=text, expected=("u64" if unsigned else "i64", v), observed=repr(r))
+        return ok
+    except Exception as e:
+        if P.get("_replay"):
+            LAST.update(text=text, expected=("u64" if unsigned else "i64", v), observed="exception " + repr(e))
+        return False
+    finally:
+        pp.np = old
+
+
+def _chr_pre(c):
+    if P.get("lexer"):
+        lo, hi = P["range"]
+        return len(c) == 1 and lo <= ord(c) < hi and c != "'" and c != chr(92)
+    return len(c) == 1 and 32 <= ord(c) < 127 and c != "'" and c != chr(92)
+
+
+def h_char(c: str) -> bool:
+    """
+    pre: _chr_pre(c)
+    post: _
+    """
+    import codebasin.preprocessor as pp
+
+    STATS["compared"] += 1
+    if P.get("_twin"):
+        return False
+    old = pp.np
+    pp.np = npshim
+    npshim.use(npshim.PyInt)
+    try:
+        if P.get("lexer"):
+            toks = pp.Lexer("'" + c + "'").tokenize()
+            if len(toks) != 1 or not isinstance(toks[0], pp.CharacterConstant):
+                return False
+        else:
+            toks = [pp.CharacterConstant("h", 0, False, c)]
+        r = pp.ExpressionEvaluator(toks[:1]).term()
+        return isinstance(r, npshim.int64) and r.v == ord(c)
+    except Exception as e:
+        if P.get("_replay"):
+            LAST.update(observed="exception " + repr(e))
+        return False
+    finally:
+        pp.np = old
+
+
+_ESC = [("n", 10), ("t", 9), ("r", 13), ("0", 0), ("a", 7), ("b", 8), ("f", 12), ("v", 11), (chr(92), 92), ("'", 39),
+        ('"', 34), ("?", 63)]
+
+
+def h_esc(i: int) -> bool:
+    """
+    pre: 0 <= i < 12
+    post: _
+    """
+    import codebasin.preprocessor as pp
+
+    ch = val = None
+    for k in range(12):
+        if i == k:
+            ch, val = _ESC[k]
+    STATS["compared"] += 1
+    if P.get("_twin"):
+        return False
+    text = "'" + chr(92) + ch + "' == " + str(val)
+    try:
+        with _real_numpy():
+            got = _cbi_truth(text)
+    except Exception as e:
+        if P.get("_replay"):
+            LAST.update(text=text, observed="exception " + repr(e))
+        return False
+    if P.get("_replay"):
+        LAST.update(text=text, observed=got, expected=True)
+    return got is True
+
+
+DEF_EXPRS = [
+    "defined A", "defined(A)", "defined ( B )", "!defined A && defined(B)", "defined A || defined B", "A", "A == 0", "B + 1 == 2",
+    "A > B", "defined(A) + defined(B) == 2", "true", "false || A", "UNKNOWN", "!UNKNOWN", "(A) && !defined(UNKNOWN)",
+    "defined A == A", "A ? defined B : B", "-A < 0", "A - B", "defined(A) ? A : B",
+]
+_DEF_CLASSES = [None, "", "=0", "=1", "=2", "=-1"]  # undefined, -DX, -DX=0, ...
+_TOKCACHE = {}
+
+
+def _def_tokens(i):
+    import codebasin.preprocessor as pp
+
+    if i not in _TOKCACHE:
+        _TOKCACHE[i] = pp.Lexer(DEF_EXPRS[i]).tokenize()
+    return _TOKCACHE[i]
+
+
+def prepare(params):
+    if params.get("family") == "def":
+        for i in range(len(DEF_EXPRS)):
+            _def_tokens(i)
+        import codebasin.preprocessor as pp
+
+        for cl in _DEF_CLASSES[1:]:
+            pp.macro_from_definition_string("A" + cl)
+
+
+def _def_ref(i, ca, cb):
+    """reference: substitute -D values, `defined` by class, leftovers are 0"""
+    vals = {"A": ca, "B": cb}
+    toks = []
+    raw = ref_expr_tokens(DEF_EXPRS[i])
+    j = 0
+    while j < len(raw):
+        t = raw[j]
+        if t == "defined":
+            k = j + 1
+            if raw[k] == "(":
+                name = raw[k + 1]
+                j = k + 3
+            else:
+                name = raw[k]
+                j = k + 1
+            toks.append(ref_expr.CVal(False, 1 if vals.get(name) is not None else 0))
+            continue
+        if isinstance(t, str) and t in vals and vals[t] is not None:
+            cl = vals[t]
+            toks.append(ref_expr.CVal(False, 1 if cl == "" else int(cl[1:])))
+        else:
+            toks.append(t)
+        j += 1
+    return ref_expr.evaluate(toks)
+
+
+def ref_expr_tokens(text):
+    return ref_expr.tokenize(text)
+
+
+def h_def(ca: int, cb: int) -> bool:
+    """
+    pre: 0 <= ca < 6 and 0 <= cb < 6
+    post: _
+    """
+    import codebasin.preprocessor as pp
+    from codebasin.platform import Platform
+
+    i = P["expr"]
+    cls_a = cls_b = None
+    for k in range(6):  # explicit chains: a symbolic subscript would not fork
+        if ca == k:
+            cls_a = _DEF_CLASSES[k]
+        if cb == k:
+            cls_b = _DEF_CLASSES[k]
+    exp = _def_ref(i, cls_a, cls_b)
+    if exp.ok is not True:
+        return True
+    STATS["compared"] += 1
+    if P.get("_twin"):
+        return False
+    plat = Platform("p", "/")
+    for name, cl in (("A", cls_a), ("B", cls_b)):
+        if cl is not None:
+            m = pp.macro_from_definition_string(name + cl)
+            plat.define(m.name, m)
+    node = pp.IfNode(list(_def_tokens(i)), list(_def_tokens(i)))
+    try:
+        got = bool(node.evaluate_for_platform(platform=plat, filename="/x.c", state=None))
+    except Exception as e:
+        if P.get("_replay"):
+            LAST.update(expr=DEF_EXPRS[i], A=cls_a, B=cls_b, observed="exception " + repr(e))
+        return False
+    if P.get("_replay"):
+        LAST.update(expr=DEF_EXPRS[i], A=cls_a, B=cls_b, expected=exp.v != 0, observed=got)
+    return got == (exp.v != 0)
+
+
+def _lit_obligations(tier, regions):
+    obs = []
+    mx = 3 if tier == "quick" else 5
+    combos = []
+    few = ["", "u", "ULL", "lu", "LLu"]
+    for suf in SUFFIXES:
+        combos.append(("", suf, "", 1, 2))
+    for pre in ["", "0", "0b", "0B"]:
+        for suf in few:
+            combos.append((pre, suf, "", 1, mx))
+    # CrossHair enumerates hexadecimal digits one by one (22 paths per character): short tails only
+    for pre in ["0x", "0X"]:
+        for suf in ["", "u", "LLu"]:
+            combos.append((pre, suf, "", 1, 1))
+    combos.append(("0x", "", "", 2, 2))
+    if tier == "thorough":
+        for pre in ["0", "0x", "0b"]:
+            for suf in SUFFIXES:
+                combos.append((pre, suf, "", 1, 1 if pre == "0x" else 3))
+        for suf in few:
+            combos.append(("0x", suf, "", 2, 2))
+            combos.append(("0X", suf, "", 2, 2))
+    # boundary stems: the value crosses 2^63 / 2^64 within the symbolic tail
+    for suf in ["", "u", "ll", "ull"]:
+        combos.append(("", suf, "92233720368547758", 2, 2))
+        if "u" in suf:
+            combos.append(("", suf, "184467440737095516", 2, 2))
+        for stem in ["7FFFFFFFFFFFFFF", "FFFFFFFFFFFFFFF", "800000000000000"]:
+            combos.append(("0x", suf, stem, 1, 1))
+        combos.append(("0", suf, "7777777777777777777", 2, 2))
+        combos.append(("0", suf, "17777777777777777777", 2, 2))
+        combos.append(("0b", suf, "1" * 62, 2, 2))
+    seen = set()
+    all_big = {"800000000000000", "FFFFFFFFFFFFFFF", "17777777777777777777", "1" * 62}
+    for pre, suf, stem, mn, mxl in combos:
+        key = (pre, suf, stem, mn, mxl)
+        if key in seen:
+            continue
+        if "C02-big-unsuffixed-literal" in regions and stem in all_big and "u" not in suf.lower():
+            continue  # every value of this obligation lies in the open known finding's region (see witness/)
+        seen.add(key)
+        params = dict(family="lit", prefix=pre, suffix=suf, stem=stem, minlen=mn, maxlen=mxl, regions=regions)
+        obs.append(Ob(id="lit/%s|%s|%s|%d-%d" % (pre or "dec", stem[:6] or "-", suf or "-", mn, mxl), kind="ch",
+                      module=__name__, func="h_lit", params=params, timeout=90 if tier == "quick" else 300, group="lit"))
+    for fid in regions:
+        if fid == "C02-big-unsuffixed-literal":
+            params = dict(family="lit", prefix="0x", suffix="", stem="FFFFFFFFFFFFFFF", minlen=1, maxlen=1, regions=[],
+                          witness=fid)
+            obs.append(Ob(id="witness/" + fid, kind="ch", module=__name__, func="h_lit", params=params, timeout=90,
+                          expect="witness:" + fid, group="witness"))
+    obs.append(Ob(id="lit/char", kind="ch", module=__name__, func="h_char", params=dict(family="char"),
+                  timeout=120, group="lit"))
+    # through the real Lexer the character is enumerated by CrossHair: split the printable range over workers
+    step = 8 if tier == "quick" else 4
+    for lo in range(32, 127, step):
+        obs.append(Ob(id="lit/char-lexer/%d" % lo, kind="ch", module=__name__, func="h_char",
+                      params=dict(family="char", lexer=True, range=[lo, min(127, lo + step)]), timeout=120, group="lit"))
+    if "C02-char-escapes" in regions:
+        obs.append(Ob(id="witness/C02-char-escapes", kind="ch", module=__name__, func="h_esc", params=dict(family="esc"),
+                      timeout=60, expect="witness:C02-char-escapes", group="witness"))
+    else:
+        obs.append(Ob(id="lit/char-escapes", kind="ch", module=__name__, func="h_esc", params=dict(family="esc"),
+                      timeout=60, group="lit"))
+    for i in range(len(DEF_EXPRS)):
+        obs.append(Ob(id="def/%02d" % i, kind="ch", module=__name__, func="h_def", params=dict(family="def", expr=i),
+                      timeout=120, group="def"))
+    return obs
+
+
+# --------------------------------------------------------------------------
 
 
 def obligations(tier, known):
@@ -563,6 +891,7 @@ def obligations(tier, known):
             obs.append(Ob(id="parse/%s/%s" % (sid, "".join(k[0] for k in ks)), kind="fn", module=__name__,
                           func="check_parse", params=dict(items=items, kinds=ks, timeout_ms=tmo, regions=regions),
                           twin=False, group="parse", timeout=tmo / 1000 * 6))
+    obs += _lit_obligations(tier, regions)
     return obs
 
 
@@ -571,6 +900,8 @@ def replay(obd, cex):
     is consulted as a second opinion on the reference when it accepts the text without diagnostics"""
     from vp.gccoracle import gcc_if
 
+    if obd["kind"] == "ch":
+        return _replay_ch(obd, cex)
     text = cex.get("observer") or cex["text"]
     detail = dict(text=text)
     try:
@@ -595,3 +926,43 @@ CLAIM = ("Inductive operator step: for every C operator and every pair of 64-bit
          "decided by z3 over bit-vectors; plus bounded checks of the real parser's grouping and of literal conversion.")
 LEVEL_NOTE = ("Trusted: the NumPy scalar model vp/npshim.py (validated pointwise every run), z3/cvc5, the reference semantics "
               "vp/refs/ref_expr.py (cross-checked against gcc -E at replay). Bounded: parser skeleton size, literal length.")
+
+
+def _replay_ch(obd, cex):
+    """lit/def counterexamples: re-run the harness natively, then confirm through the public path (real Lexer on the
+    spelled text, real NumPy) and gcc"""
+    import sys
+
+    from vp.gccoracle import gcc_if
+
+    mod = sys.modules[__name__]
+    mod.P = dict(obd["params"], _twin=False, _replay=True)
+    mod.LAST = {}
+    args, kw = cex
+    try:
+        ok = getattr(mod, obd["func"])(*args, **kw)
+    except Exception as e:
+        ok = False
+        LAST.update(exception=repr(e))
+    detail = dict(LAST)
+    if ok is not False:
+        return dict(reproduced=False, detail=detail)
+    fam = obd["params"].get("family")
+    if fam == "lit":
+        text = detail.get("text")
+        kind, v = detail["expected"]
+        probe = "%s == %d%s" % (text, v, "u" if kind == "u64" else "")
+        detail["public_probe"] = probe
+        detail["gcc"] = gcc_if(probe)
+        try:
+            got = _cbi_truth(probe)
+            # signedness probe: -X < 0 is true exactly for signed X > 0
+            sp = "-%s < 0" % text
+            got2 = _cbi_truth(sp) if v > 0 else None
+            exp2 = (kind == "i64") if v > 0 else None
+            detail.update(public_observed=got, sign_probe=sp, sign_observed=got2, sign_expected=exp2)
+            return dict(reproduced=(got is not True) or (got2 != exp2), detail=detail)
+        except Exception as e:
+            detail.update(public_observed="exception " + repr(e)[:200])
+            return dict(reproduced=True, detail=detail)
+    return dict(reproduced=True, detail=detail)
